@@ -22,7 +22,7 @@ import common
 from common import Check
 import population
 
-THEOREMS = ["Nmfu.C10_ok_consumes_chunk", "Nmfu.C10_cursor_within_chunk", "Nmfu.C10_fail_absorbing",
+THEOREMS = ["Nmfu.C10_ok_consumes_chunk", "Nmfu.C10_cursor_within_chunk", "Nmfu.C10_fail_absorbing", "Nmfu.C10_fail_absorbing_empty_chunk",
             "Nmfu.C10_yield_resume_exact", "Nmfu.noStuck_of_leavesOK"]
 
 
@@ -61,6 +61,8 @@ def work(job):
     strict = rtdiff.Case(prog, base + ["-fstrict-done-token-generation"], os.path.join(wd, "b"))
     res["states"] = case.nstates
     has_yield = bool(list(case.outcome.cctx.yield_codes))
+    # (empty chunks are only defined for parsers whose feed starts with the end check)
+    zl = case if case.outcome.cctx._needs_end_check() else rtdiff.Case(prog, base + ["-fzero-len-input-support"], os.path.join(wd, "z"))
     n_in = 10 if tier == "quick" else 40
     for data in [inputs.random_walk(case.dfa, rng, rng.randint(1, 16)) for _ in range(n_in)] + inputs.extra(prog):
         n = len(data)
@@ -74,16 +76,22 @@ def work(job):
         # history C: end right after a prefix, then feeding goes on
         k = rng.randint(0, n)
         opsC = ["start"] + ([f"feedy:{data[:k].hex()}"] if k else []) + (["end"] if case.eof() else []) + [f"feedy:{data[k:].hex() or '00'}"] + (["end"] if case.eof() else [])
-        for tag, ops in (("A", opsA), ("B", opsB), ("C", opsC)):
-            cl, status, err = case.run_c(ops)
+        # history D (parsers that accept empty chunks: zero-length support, or yields): empty chunks in
+        # between and after a terminal result
+        opsD = ["start", "feedy:", f"feedy:{data.hex()}", "feedy:", f"feedy:{tail.hex()}", "feedy:", "feedy:"]
+        hist = [("A", opsA, case), ("B", opsB, case), ("C", opsC, case)]
+        if zl is not None and zl.ok:
+            hist.append(("D", opsD, zl))
+        for tag, ops, case_ in hist:
+            cl, status, err = case_.run_c(ops)
             res["histories"] += 1
             if status != "ok":
                 res["viol"].append({"kind": "binary-" + status, "history": ops, "detail": err[-300:]})
                 continue
-            ml = case.run_model(ops)
+            ml = case_.run_model(ops)
             d = rtdiff.compare(cl, ml)
             if d is not None:
-                res["corr"].append({"kind": "model-vs-binary", "history": ops, "first": [d[2], d[3]], "args": case.args})
+                res["corr"].append({"kind": "model-vs-binary", "history": ops, "first": [d[2], d[3]], "args": case_.args})
             ev = parse(cl)
             # P1, P5 on every feed line
             ci = 0
